@@ -193,7 +193,7 @@ def ref_key(ctx: Ctx) -> RuleResult:
             r.violate(f"{f.short}: {norm_src(n)}", f.loc(n),
                       f"a reference is re-identified from '{src}' without carrying its key path ({src}.key): an indexed or unpacked "
                       f"use silently becomes a use of the whole value", norm_src(n))
-    r.require(n_rel >= 6, f"only {n_rel} re-identification sites found (confirmed by hand: >= 10 in the splice and in compose)")
+    r.require(n_rel >= 3, f"only {n_rel} re-identification sites found (today: 11 in the splice and in compose; a shared helper may reduce that)")
     cf = control_funcs(ctx)
     if cf:
         bad = [1 for f, n, src, ok, how in _key_sites(ctx, cf) if src is not None and not ok]
@@ -441,7 +441,11 @@ def _shape_map(f: FuncInfo, subject: str, typer=None) -> Dict[str, Set[str]]:
                 tys, neg = types_of(s.test)
                 if tys is not None and not neg:
                     go(s.body, tys if active is None else [t for t in tys if t in active] or tys)
-                    go(s.orelse, active)
+                    go(s.orelse, active if active is None else [t for t in active if t not in tys])
+                    if s.body and isinstance(s.body[-1], (ast.Return, ast.Raise)) and active is not None:
+                        # the arm always leaves: what follows is only reached for the other shapes
+                        go(stmts[i + 1:], [t for t in active if t not in tys])
+                        return
                 elif tys is not None and neg and s.body and isinstance(s.body[-1], (ast.Return, ast.Raise)):
                     go(stmts[i + 1:], tys)
                     return
@@ -729,7 +733,13 @@ def ref_flagpred(ctx: Ctx) -> RuleResult:
         if isinstance(n, ast.Assign) and len(n.targets) == 1 and isinstance(n.targets[0], ast.Name):
             env_vars.setdefault(n.targets[0].id, n.value)
     for s in sites:
-        ch = chains.get(id(s), ())
+        ch = []
+        for t_, v_ in chains.get(id(s), ()):
+            # `if a and b:` (taken) is `if a:` + `if b:`
+            if v_ and isinstance(t_, ast.BoolOp) and isinstance(t_.op, ast.And):
+                ch += [(c_, True) for c_ in t_.values]
+            else:
+                ch.append((t_, v_))
         flag_tests = []
         for t, v in ch:
             via = [x for x in names_in(t) if x in env_vars and kw in names_in(env_vars[x])]
@@ -1359,6 +1369,16 @@ def ref_nonekey(ctx: Ctx) -> RuleResult:
         st = _innermost_stmt(f.node, fd) if not isinstance(fd, ast.stmt) else fd
         tests = [norm_src(t) for t, v in chains.get(id(st), ())]
         guarded = any(" is None" in t or " is not None" in t for t in tests)
+        # or an early exit: `if <stored value> is None [and <key path>]: return None` before the fold
+        stored = {n_.targets[0].id for n_ in iter_own_nodes(f.node) if isinstance(n_, ast.Assign) and isinstance(n_.targets[0], ast.Name)
+                  and isinstance(n_.value, ast.Subscript) and norm_src(n_.value.value).endswith("results")}
+        for g_ in iter_own_nodes(f.node):
+            if isinstance(g_, ast.If) and g_.lineno < fd.lineno and g_.body and isinstance(g_.body[-1], ast.Return):
+                for c_ in ast.walk(g_.test):
+                    if isinstance(c_, ast.Compare) and len(c_.ops) == 1 and isinstance(c_.ops[0], ast.Is) and isinstance(c_.left, ast.Name) \
+                            and c_.left.id in stored and isinstance(c_.comparators[0], ast.Constant) and c_.comparators[0].value is None:
+                        guarded = True
+                        tests = tests + [norm_src(g_.test) + " -> return"]
         r.ob(guarded, {"key-path fold": norm_src(fd)[:90], "under": tests})
         if not guarded:
             r.violate("UsageExecNode.result: the key path is applied to the None stored for a deactivated node", f.loc(fd),
@@ -1462,6 +1482,19 @@ def ref_funcopy(ctx: Ctx) -> RuleResult:
                       "clones of its arguments - the user's callable is never entered; state it keeps (a counter, a log, a connection) is "
                       "per call site: three calls of xn(counter.next) return (1, 1, 1), plain Python returns (1, 2, 3)",
                       norm_src(copied[0]) if copied else norm_src(n))
+    # a node that is deep-copied as a whole (compose) gets the original callable back
+    for f in pkg_funcs(ctx):
+        for n in iter_own_nodes(f.node):
+            if isinstance(n, ast.Call) and dotted(n.func) == "deepcopy" and len(n.args) == 1 and is_xn(ctx, ctx.type_of(f, n.args[0])):
+                subj = norm_src(n.args[0])
+                back = [x for x in iter_own_nodes(f.node) if isinstance(x, ast.Call) and dotted(x.func) in ("object.__setattr__", "setattr")
+                        and len(x.args) == 3 and const_str(x.args[1]) == "exec_function" and norm_src(x.args[2]) == f"{subj}.exec_function"]
+                r.ob(bool(back), {"in": f.short, "deep copy of a node": norm_src(n), "function restored": bool(back)})
+                if not back:
+                    r.violate(f"{f.short}: a deep-copied node runs a clone of the user's callable", f.loc(n),
+                              "the composed DAG calls a bound method on a clone of its object (or a partial with cloned arguments): it does "
+                              "not compute what the original pipeline would compute for these inputs, and the user's object never sees the call",
+                              norm_src(n))
     return r
 
 
@@ -1517,7 +1550,44 @@ def ref_stubexec(ctx: Ctx) -> RuleResult:
     return r
 
 
+def ref_unwrap(ctx: Ctx) -> RuleResult:
+    """The decorator never stores an ExecNode as the function of another ExecNode.
+
+    xn(existing_node, priority=...) is how an existing node is given other options. If the new node's exec_function is the old
+    node OBJECT, running the new node calls a decorated function outside a description: TawaziUsageError by default (or the
+    configured warning / silent direct call)."""
+    r = RuleResult("REF-UNWRAP")
+    base = ctx.P.classes[ctx.cls_q("ExecNode")]
+    fam = {c.qualname for c in ctx.P.subclasses(base.qualname)}
+    n = 0
+    for f in pkg_funcs(ctx):
+        if not f.module.name.endswith("_decorators"):
+            continue
+        for call, q in ctx.calls_in(f):
+            if q not in fam:
+                continue
+            fn = next((k.value for k in call.keywords if k.arg == "exec_function"), None)
+            if not isinstance(fn, ast.Name):
+                continue
+            n += 1
+            unwraps = [x for x in iter_own_nodes(f.node) if isinstance(x, ast.If) and isinstance(x.test, ast.Call)
+                       and dotted(x.test.func) == "isinstance" and dotted(x.test.args[0]) == fn.id and "ExecNode" in norm_src(x.test.args[1])
+                       and any(isinstance(b, ast.Assign) and dotted(b.targets[0]) == fn.id and isinstance(b.value, ast.Attribute)
+                               and b.value.attr == "exec_function" for b in x.body) and x.lineno < call.lineno]
+            refuses = [x for x in iter_own_nodes(f.node) if isinstance(x, ast.If) and "isinstance" in norm_src(x.test) and "ExecNode" in norm_src(x.test)
+                       and any(isinstance(b, ast.Raise) for b in x.body) and x.lineno < call.lineno]
+            ok = bool(unwraps or refuses)
+            r.ob(ok, {"in": f.short, "function stored": fn.id, "an ExecNode is unwrapped / refused first": ok})
+            if not ok:
+                r.violate(f"{f.short}: the decorated object is stored as the node's function even when it is an ExecNode", f.loc(call),
+                          "xn(existing_node, setup=True): the new node runs the OLD NODE as its function; at run time that is a call of a "
+                          "decorated function outside a DAG description - TawaziUsageError with the default configuration", norm_src(call)[:100])
+    r.require(n >= 1, "construction of the node in the decorator not found")
+    return r
+
+
 RULES = {
+    "REF-UNWRAP": ref_unwrap,
     "REF-STUBEXEC": ref_stubexec,
     "REF-RESULTTRY": ref_resulttry,
     "REF-FUNCOPY": ref_funcopy,
